@@ -111,6 +111,7 @@ type c15Res struct {
 	timeline   []string // "t=<virtual offset> <event> -> <observation>"
 	fails      []c15Fail
 	engine     string
+	retry      string // non-empty: the history could not be staged as intended (scheduler preemption); run it again
 	nondet     string
 	log        string
 	outcome    string
@@ -200,6 +201,17 @@ const c15MaxViolPerShard = 2
 // (work items = configuration x prefix of length prefixDepth, sharded).
 func c15Explore(t *testing.T, r *vk.Run, P string, leg c15Leg, depth, prefixDepth int) {
 	nviol := 0
+	var retries int64
+	run := func(cfg, depth int, choose func(step, n int) int) (res c15Res) {
+		for attempt := 0; attempt < 8; attempt++ {
+			if res = leg.run(t, cfg, depth, choose); res.retry == "" {
+				return res
+			}
+			retries++
+		}
+		res.engine = "history could not be staged in 8 attempts: " + res.retry
+		return res
+	}
 	report := func(cfg int, choices []int, res c15Res) {
 		if res.engine != "" {
 			r.EngineError("%s cfg=%s history=%v: %s", leg.name, leg.cfgDesc(cfg), res.events, res.engine)
@@ -220,7 +232,7 @@ func c15Explore(t *testing.T, r *vk.Run, P string, leg c15Leg, depth, prefixDept
 		if rp.Leg != leg.name {
 			return
 		}
-		res := leg.run(t, rp.Cfg, len(rp.Choices), func(step, n int) int {
+		res := run(rp.Cfg, len(rp.Choices), func(step, n int) int {
 			if step >= len(rp.Choices) || rp.Choices[step] >= n {
 				return -1
 			}
@@ -240,7 +252,7 @@ func c15Explore(t *testing.T, r *vk.Run, P string, leg c15Leg, depth, prefixDept
 	for cfg := 0; cfg < leg.ncfg; cfg++ {
 		po := &c15Odo{}
 		for {
-			res := leg.run(t, cfg, min(prefixDepth, depth), func(step, n int) int { return po.choose(step, n) })
+			res := run(cfg, min(prefixDepth, depth), func(step, n int) int { return po.choose(step, n) })
 			if res.engine != "" || po.bad != "" {
 				r.EngineError("%s cfg=%s prefix enumeration path=%v: %s %s", leg.name, leg.cfgDesc(cfg), po.path, res.engine, po.bad)
 				return
@@ -267,7 +279,7 @@ outer:
 				capped = leg.name + ": time budget reached before all histories were run"
 				break outer
 			}
-			res := leg.run(t, it.cfg, depth, func(step, n int) int { return o.choose(step, n) })
+			res := run(it.cfg, depth, func(step, n int) int { return o.choose(step, n) })
 			if o.bad != "" || res.nondet != "" {
 				r.EngineError("%s cfg=%s: non-deterministic applicability: %s %s", leg.name, leg.cfgDesc(it.cfg), o.bad, res.nondet)
 				break outer
@@ -300,6 +312,9 @@ outer:
 	r.NontrivialN(P, nontriv)
 	r.AddInt(P, leg.name+"_events_executed", steps)
 	r.Set(P, leg.name+"_depth_bound", depth)
+	if retries > 0 {
+		r.AddInt(P, leg.name+"_histories_rerun_after_scheduler_preemption", retries) // infrastructure metric, load dependent
+	}
 	r.AddInt(P, leg.name+"_work_items", int64(len(items))) // summed over shards by the driver: divide by shards
 	for k, v := range stats {
 		r.AddInt(P, leg.name+"_"+k, v)
